@@ -1,70 +1,142 @@
 import ShredModel.Model.Builder
 import ShredModel.Model.Plan
+import ShredModel.Model.Nested
+import ShredModel.Model.PTask
+import ShredModel.Model.Effect
 import ShredModel.Drv.Util
 /-! Line-protocol front end of the builder / task model (plan and trace engines). -/
 namespace Shred.Drv.Plan
 open Shred Shred.Drv
 
-/-- driver state: stack of builders (head = innermost batch being filled) and the residual
-task of the trace being validated, if any -/
+/-- one builder being filled, with what its batches contribute to the task semantics -/
+structure Frame where
+  b : DispatcherBuilder := {}
+  bodies : List (SysTag × Body) := []
+  threads : List (SysTag × Threads) := []
+
+/-- driver state: stack of builders (head = innermost batch being filled), the declarations of
+all plain systems by tag, and the residual task / expected threads of the trace being validated -/
 structure St where
-  bs : List DispatcherBuilder := [{}]
-  tr : Option (RTask SysTag) := none
+  frames : List Frame := [{}]
+  decls : List (SysTag × Decl) := []
+  tr : Option (PR Inst) := none
+  /-- the crate's `parallel` feature -/
+  par : Bool := true
+  thr : List (Inst × Char) := []
+
+def parseInst (s : String) : Inst := (s.splitOn "/").filterMap String.toNat?
+
+def showInst (i : Inst) : String := "/".intercalate (i.map toString)
+
+def findDecl (ds : List (SysTag × Decl)) (t : SysTag) : Option Decl :=
+  (ds.find? fun p => p.1 == t).map (·.2)
+
+def lookupThread (l : List (Inst × Char)) (i : Inst) : Option Char :=
+  (l.find? fun p => p.1 == i).map (·.2)
+
+def showU64 (x : UInt64) : String := toString x.toNat
+
+/-- the effect of `k` dispatches in `dispatch_seq` order, from the initial harness world -/
+def effects (f : Frame) (decls : List (SysTag × Decl)) (k : Nat) : EffState :=
+  let t := nDispatchTask false f.b.stagesBuilder.stages f.b.threadLocal f.bodies []
+  let insts := t.seqTrace.filterMap fun e => match e with | .F i => some i | .D _ => none
+  let once (st : EffState) : EffState :=
+    insts.foldl (fun st i =>
+      match i.getLast? with
+      | some tag => match findDecl decls tag with
+        | some d => runSys tag d st
+        | none => st
+      | none => st) st
+  (List.range k).foldl (fun st _ => once st) { world := initWorld 6 4, locals := [] }
 
 def step (st : St) (ws : List String) : St × String :=
   match ws with
   | ["new"] => ({}, "ok")
+  | ["new", "nopar"] => ({ par := false }, "ok")
   | ["sys", tag, name, deps, r, w, t] =>
-    match st.bs, tag.toNat?, t.toNat? with
-    | b :: rest, some tag, some t =>
-      let (b', p) := b.add tag (unhex name) ((parseList deps).map unhex) ⟨parseRes r, parseRes w, t⟩
-      ({ st with bs := b' :: rest }, match p with | none => "placed" | some p => showPanic p)
+    match st.frames, tag.toNat?, t.toNat? with
+    | f :: rest, some tag, some t =>
+      let d : Decl := ⟨parseRes r, parseRes w, t⟩
+      let (b', p) := f.b.add tag (unhex name) ((parseList deps).map unhex) d
+      ({ st with frames := { f with b := b' } :: rest, decls := (tag, d) :: st.decls },
+        match p with | none => "placed" | some p => showPanic p)
     | _, _, _ => (st, "bad-op")
   | ["barrier"] =>
-    match st.bs with
-    | b :: rest => ({ st with bs := b.addBarrier :: rest }, "ok")
+    match st.frames with
+    | f :: rest => ({ st with frames := { f with b := f.b.addBarrier } :: rest }, "ok")
     | [] => (st, "bad-op")
-  | ["tl", tag, _r, _w] =>
-    match st.bs, tag.toNat? with
-    | b :: rest, some tag => ({ st with bs := b.addThreadLocal tag :: rest }, "ok")
+  | ["tl", tag, r, w] =>
+    match st.frames, tag.toNat? with
+    | f :: rest, some tag =>
+      ({ st with frames := { f with b := f.b.addThreadLocal tag } :: rest,
+                 decls := (tag, ⟨parseRes r, parseRes w, 3⟩) :: st.decls }, "ok")
     | _, _ => (st, "bad-op")
-  | ["batch-begin"] => ({ st with bs := ({} : DispatcherBuilder) :: st.bs }, "ok")
-  | ["batch-end", tag, name, deps, _ctl, r, w, t, _n] =>
-    match st.bs, tag.toNat?, t.toNat? with
-    | inner :: b :: rest, some tag, some t =>
-      let (b', p) := b.addBatch tag (unhex name) ((parseList deps).map unhex) ⟨parseRes r, parseRes w, t⟩ inner
-      ({ st with bs := b' :: rest }, match p with | none => "placed" | some p => showPanic p)
-    | _, _, _ => (st, "bad-op")
+  | ["batch-begin"] => ({ st with frames := ({} : Frame) :: st.frames }, "ok")
+  | ["batch-end", tag, name, deps, _ctl, r, w, t, n] =>
+    match st.frames, tag.toNat?, t.toNat?, n.toNat? with
+    | inner :: f :: rest, some tag, some t, some n =>
+      let (b', p) := f.b.addBatch tag (unhex name) ((parseList deps).map unhex) ⟨parseRes r, parseRes w, t⟩ inner.b
+      let sb := inner.b.stagesBuilder
+      let f' : Frame := match p with
+        | none => { b := b',
+                    bodies := (tag, batchBody st.par sb.stages inner.b.threadLocal inner.bodies n) :: f.bodies,
+                    threads := (tag, batchThreads st.par sb.stages inner.b.threadLocal inner.threads n) :: f.threads }
+        | some _ => { f with b := b' }
+      ({ st with frames := f' :: rest }, match p with | none => "placed" | some p => showPanic p)
+    | _, _, _, _ => (st, "bad-op")
   | ["layout"] =>
-    match st.bs with
-    | b :: _ =>
-      let sb := b.stagesBuilder
-      (st, s!"ids={showNested sb.ids} sys={showNested sb.stages} tl=[{",".intercalate (b.threadLocal.map toString)}] barrier={sb.barrier} maxthreads={b.maxThreads}")
+    match st.frames with
+    | f :: _ =>
+      let sb := f.b.stagesBuilder
+      (st, s!"ids={showNested sb.ids} sys={showNested sb.stages} tl=[{",".intercalate (f.b.threadLocal.map toString)}] barrier={sb.barrier} maxthreads={f.b.maxThreads}")
     | [] => (st, "bad-op")
   | ["debug"] =>
-    match st.bs with
-    | b :: _ => (st, hex b.writeParSeq)
+    match st.frames with
+    | f :: _ => (st, hex f.b.writeParSeq)
     | [] => (st, "bad-op")
   | ["trace-begin", mode] =>
-    match st.bs with
-    | b :: _ =>
-      let t := if mode == "seq" then dispatchSeqTask b.stagesBuilder.stages b.threadLocal
-               else dispatchTask b.stagesBuilder.stages b.threadLocal
-      ({ st with tr := some t.toR }, "ok")
+    match st.frames with
+    | f :: _ =>
+      let sb := f.b.stagesBuilder
+      let par := st.par && (mode == "par" || mode == "paronly")
+      let tl := if mode == "paronly" || mode == "seqonly" then [] else f.b.threadLocal
+      let stages := if mode == "tlonly" then [] else sb.stages
+      let t := nDispatchTask par stages tl f.bodies []
+      ({ st with tr := some t.toPR, thr := nThreads par stages tl f.threads 'c' [] }, "ok")
     | [] => (st, "bad-op")
-  | ["ev", k, tag] =>
-    match st.tr, tag.toNat? with
-    | some t, some tag =>
-      let e : Ev SysTag := if k == "F" then .F tag else .D tag
-      match t.deriv e with
-      | some t' => ({ st with tr := some t' }, "ok")
-      | none => (st, s!"reject {k} {tag}")
-    | _, _ => (st, "bad-op")
+  | ["ev", k, inst, th] =>
+    match st.tr with
+    | some t =>
+      let i := parseInst inst
+      let e : Option (PEv Inst) :=
+        if k == "F" then some (.F i) else if k == "D" then some (.D i) else if k == "P" then some (.P i) else none
+      match e with
+      | none => (st, "bad-op")
+      | some e =>
+        match t.deriv e with
+        | some t' =>
+          match lookupThread st.thr i, th.toList with
+          | some want, [c] =>
+            if want == c then ({ st with tr := some t' }, "ok")
+            else ({ st with tr := some t' }, s!"thread {inst} expected {want} got {c}")
+          | _, _ => ({ st with tr := some t' }, "ok")
+        | none => (st, s!"reject {k} {inst}")
+    | none => (st, "bad-op")
   | ["trace-end"] =>
     match st.tr with
-    | some t => ({ st with tr := none }, if t.nullable then "accept" else "reject incomplete")
+    | some t =>
+      ({ st with tr := none },
+        if t.finalOk false then (if t.hasPanic then "accept panicked" else "accept ok")
+        else "reject incomplete")
     | none => (st, "bad-op")
+  | ["effects", k] =>
+    match st.frames, k.toNat? with
+    | f :: _, some k =>
+      let e := effects f st.decls k
+      let w := ",".intercalate (e.world.map fun p => s!"{p.1.ty}.{p.1.dyn}={showU64 p.2}")
+      let l := ",".intercalate (e.locals.map fun p => s!"{p.1}:{showU64 p.2.1}:{showU64 p.2.2}")
+      (st, s!"world {w} locals {if l.isEmpty then "-" else l}")
+    | _, _ => (st, "bad-op")
   | _ => (st, "bad-op")
-
 
 end Shred.Drv.Plan
